@@ -90,6 +90,7 @@ pub(crate) use tri;
 impl World {
     pub async fn new(seed: u64, cfg: RunCfg, run_dir: PathBuf) -> R<World> {
         std::fs::create_dir_all(&run_dir)?;
+        klukai_types::verif::lock_trace_start();
         let n = cfg.nodes;
         let actors: Vec<ActorId> = (0..n).map(|i| seeded_actor(seed, i)).collect();
         let mut site_names = BTreeMap::new();
